@@ -323,6 +323,20 @@ int main()
                 ld gap = std::strtold(t[5].c_str(), nullptr);
                 auto ks = ints(t, 6);
                 ok = t[1] == "f" ? sdft_case<float>(t[2], emit, q, gap, ks) : sdft_case<double>(t[2], emit, q, gap, ks);
+            } else if (t.size() == 2 && t[0] == "rho") {     // rho T: the per-step damping of SlidingDFT<T>, measured on a long window
+                // N = 4800, DC bin: an impulse, then N-2 zeros; nothing has left the window, so |y[k]| = rho^(k+1)
+                auto measure = [](auto tag) {
+                    using T = decltype(tag);
+                    mobilinkd::SlidingDFT<T, 48000, 0, 10> dft;   // frequency 0: coeff_ = exp(0) = 1 exactly, so only the damping acts
+                    std::complex<T> y = dft(T(1));
+                    size_t k = 0;
+                    for (; k + 2 < 4800; ++k) y = dft(T(0));
+                    ld mag = std::hypot(ld(y.real()), ld(y.imag()));
+                    std::printf("rho steps=%zu mag=", k + 1); put(T(0)); std::printf(" magld=%.21Lg", mag);
+                };
+                if (t[1] == "f") measure(float(0)); else measure(double(0));
+                ok = true;
+                std::printf("\n");
             } else if (t.size() == 1 && t[0] == "tables") {
                 // the arrays themselves
                 dump("rxd", mobilinkd::detail::Taps<double>::rrc_taps); std::putchar(' ');
